@@ -1,6 +1,7 @@
 package lib
 
 import (
+	"crypto/md5"
 	"bytes"
 	"encoding/json"
 	"flag"
@@ -70,11 +71,11 @@ type Result struct {
 	CorrFiles          []CorrFile             `json:"corr_files"`
 	Exhaustive         bool                   `json:"exhaustive"`
 	Extra              map[string]interface{} `json:"extra,omitempty"`
-	distinct           map[string]bool
+	distinct           map[[16]byte]struct{} // digests of the canonical texts (the texts themselves would not fit in memory in the thorough tier)
 }
 
 func NewResult(prop string) *Result {
-	return &Result{Property: prop, Distribution: map[string]int{}, distinct: map[string]bool{},
+	return &Result{Property: prop, Distribution: map[string]int{}, distinct: map[[16]byte]struct{}{},
 		Extra: map[string]interface{}{}}
 }
 
@@ -82,8 +83,9 @@ func (r *Result) Count(key string) { r.Distribution[key]++ }
 
 // Nontrivial records a distinct non-trivial case by its canonical text.
 func (r *Result) Nontrivial(canon string) {
-	if !r.distinct[canon] {
-		r.distinct[canon] = true
+	k := md5.Sum([]byte(canon))
+	if _, ok := r.distinct[k]; !ok {
+		r.distinct[k] = struct{}{}
 		r.DistinctNontrivial++
 	}
 }
